@@ -6,6 +6,9 @@ HERE = os.path.dirname(os.path.dirname(os.path.abspath(__file__)))
 
 # id -> (engine, technique, level text, level note, design ref)
 CHECKS = {
+ 'C01': ('E1 state-graph / E3', 'exhaustive enumeration of the full configuration product (solver x dim x cost x start x box/mode x constraint x penalty x reducer), each run explored Step by Step with every iteration boundary judged against an objective rebuilt from the raw user functions',
+         'The complete product of a finite configuration alphabet is executed on the real solvers (and each scipy-style wrapper once per configuration); at every iteration boundary the best point must be in the recorded call log with energy reducer(cost)+penalty recomputed by the harness, every member energy must equal the harness objective at that member, and the best must not be worse than the initial energy.',
+         'constraints restricted to deterministic idempotent box-preserving ones (mechanically pre-checked); clip=False excluded; 5+1 cost functions; runs of 8 (quick) / 12 (thorough) iterations', '3/C01'),
  'C04': ('E1 state-graph', 'explicit-state exploration of all operation sequences up to a depth on real solver objects (replayed histories, canonical snapshots) against a list-based reference model of counters, monitors and callbacks',
          'Every history of length <= 4 (quick) / 5 (thorough) over a 10-operation alphabet (Step, Solve, SetEvaluationLimits(new), SetPenalty, SetConstraints, SetStrictRanges, SetEvaluationMonitor new/old, SetGenerationMonitor, Finalize) is executed on each base solver x cost x monitor kind, and after every operation the real call count, monitor contents, iteration count, callback log and energy history are compared with the harness reference model.',
          'iterations counted by wrapping the bound _Step on the instance; cost alphabet {sphere, steps, infwall}; in-process map; monotonicity judged per segment of unchanged objective (DESIGN section 5)', '3/C04'),
